@@ -368,9 +368,9 @@ def _planted(ur):
 
 # re-register the planner properties with an additional source-level (e2e) part
 for _name, _kinds, _rule in [
-        ("C05", {"dup": "multi:"}, "two sources for one type"),
+        ("C05", {"dup": "multi:", "dupset": "multi:"}, "two sources for one type"),
         ("C06", {"missing": ("noprov:", "bindmissing:"), "missingtwin": ("noprov:", "bindmissing:")}, "a needed source removed"),
-        ("C08", {"unused": "unused", "twinunused": "unusedprov:"}, "a superfluous direct item")]:
+        ("C08", {"unused": "unused", "twinunused": "unusedprov:", "unusedtwin": "unusedprov:"}, "a superfluous direct item")]:
     _unit_nt = {"C05": _nt_dups, "C06": _nt_missing, "C08": _nt_unused}[_name]
     register(_name,
              "unit tier: random provider-set DAGs through the real buildProviderMap/verifyAcyclic/solve (see planner streams); "
@@ -381,6 +381,17 @@ for _name, _kinds, _rule in [
                                ("y", {"plant": list(_kinds), "units": [1, 2], "adversarial": True, "plant_p": 0.7, "p_samepkg": 0.8,
                                       "max_structs": 9, "min_structs": 6})], _pairs_plan, set(), _planted,
                        n_quick=60, n_thorough=600, build=False, runit=False, extra=_planted_oracle(_kinds))])
+
+register("C07",
+         "unit tier: all digraphs with self-loops on <=3 (quick) / <=4 (thorough) nodes x node kinds {provider, field, "
+         "binding-aliased}, random DAG programs, diamond lattices and a 2000-chain through the real verifyAcyclic; e2e tier: generated "
+         "Go programs with a planted cycle that only exists in the union of two sets, merged by a set without items of its own and "
+         "not needed by the injector (the check must run for every set, whatever it consists of); non-trivial = cyclic set",
+         [planner_part("C07", _nt_cyclic, (3, 4), True),
+          e2e_part("C07", [("x", {"plant": ["cycle2"], "units": [1, 2], "plant_p": 0.8, "p_twin": 0.0}),
+                           ("y", {"plant": ["cycle2"], "units": [1, 2], "adversarial": True, "plant_p": 0.8, "p_twin": 0.0})],
+                   _pairs_plan, set(), _planted, n_quick=40, n_thorough=400, build=False, runit=False,
+                   extra=_planted_oracle({"cycle2": "cycle:"}))])
 
 register("C09",
          "exhaustive: every result list of length 0..4 over 8 result-type varieties (value, error, func(), named func "
